@@ -456,6 +456,6 @@ def plan(tier):
 
 
 REQUIRED_CLASSES = {
-    "quick": ["red:" + r for r in PLAIN + NANS + ARGS + OTHER] + ["deep-tree", "split_every-dict", "nan:sprinkle", "nan:block", "sliced", "axis-tuple", "axis-none", "both-raise"],
+    "quick": ["red:" + r for r in PLAIN + NANS + ARGS + OTHER] + ["deep-tree", "split_every-dict", "nan:sprinkle", "nan:block", "sliced", "axis-tuple", "axis-none"],  # "both-raise" is reached ~0-10 times per quick run (most such inputs sit in a listed region): required in thorough only
     "thorough": ["red:" + r for r in PLAIN + NANS + ARGS + OTHER] + ["deep-tree", "split_every-dict", "nan:sprinkle", "nan:block", "nan:all", "sliced", "axis-tuple", "axis-none", "both-raise"],
 }
